@@ -18,6 +18,7 @@ RULE = (
     "distinct lattice points. A scale lane repeats the check on one stream of ordinary size (70 001 samples x 32 channels in 5 member files; "
     "gulps {16384, 4099, 65536, N, 100000} x 4 ranges x skipbacks {0, 1, 1000, gulp/2})"
 )
+SCALE_LANE = 'one stream of 70 001 samples x 32 channels in 5 member files (two of one sample) per depth; gulps {16384, 4099, 65536, N, 100000} x 4 ranges x skipbacks {0, 1, 1000, gulp/2}; 5 requests beyond the stream per file set'
 ASSUMPTIONS = [
     "sample values are provenance labels (unique at 16/32 bit, hashed at <= 8 bit): read_plan never branches on values",
     "files are regular files on tmpfs; the OS returns no short reads",
